@@ -1,16 +1,19 @@
 -------------------------- MODULE LinkRegistry_MC --------------------------
 EXTENDS Integers, TLC
 CONSTANTS IdentityChecked, Shape, HandshakeMayFail
-Routers == IF Shape \in {"cross", "cross2"} THEN {"A", "B"} ELSE {"A", "B", "C"}
+(* "deadlineG" / "deadlineU": the cross shape with a set-up deadline for accepted connections, guarded / unguarded *)
+SetupDeadline == CASE Shape = "deadlineG" -> "guarded" [] Shape = "deadlineU" -> "unguarded" [] OTHER -> "none"
+Base == IF Shape \in {"deadlineG", "deadlineU"} THEN "cross" ELSE Shape
+Routers == IF Base \in {"cross", "cross2"} THEN {"A", "B"} ELSE {"A", "B", "C"}
 (* cross: A and B dial each other.  cross2: and A dials once more.
    tri3: A->B, C->B (A and C derive the same label at B), B->A.  tri: A->B, B->A, C->A, C->B. *)
-Conns == CASE Shape = "cross" -> {1, 2} [] Shape = "cross2" -> {1, 2, 3} [] Shape = "tri3" -> {1, 2, 3} [] OTHER -> {1, 2, 3, 4}
-Dialler == CASE Shape = "cross" -> (1 :> "A" @@ 2 :> "B") [] Shape = "cross2" -> (1 :> "A" @@ 2 :> "B" @@ 3 :> "A")
-             [] Shape = "tri3" -> (1 :> "A" @@ 2 :> "C" @@ 3 :> "B") [] OTHER -> (1 :> "A" @@ 2 :> "B" @@ 3 :> "C" @@ 4 :> "C")
-Listener == CASE Shape = "cross" -> (1 :> "B" @@ 2 :> "A") [] Shape = "cross2" -> (1 :> "B" @@ 2 :> "A" @@ 3 :> "B")
-             [] Shape = "tri3" -> (1 :> "B" @@ 2 :> "B" @@ 3 :> "A") [] OTHER -> (1 :> "B" @@ 2 :> "A" @@ 3 :> "A" @@ 4 :> "B")
+Conns == CASE Base = "cross" -> {1, 2} [] Base = "cross2" -> {1, 2, 3} [] Base = "tri3" -> {1, 2, 3} [] OTHER -> {1, 2, 3, 4}
+Dialler == CASE Base = "cross" -> (1 :> "A" @@ 2 :> "B") [] Base = "cross2" -> (1 :> "A" @@ 2 :> "B" @@ 3 :> "A")
+             [] Base = "tri3" -> (1 :> "A" @@ 2 :> "C" @@ 3 :> "B") [] OTHER -> (1 :> "A" @@ 2 :> "B" @@ 3 :> "C" @@ 4 :> "C")
+Listener == CASE Base = "cross" -> (1 :> "B" @@ 2 :> "A") [] Base = "cross2" -> (1 :> "B" @@ 2 :> "A" @@ 3 :> "B")
+             [] Base = "tri3" -> (1 :> "B" @@ 2 :> "B" @@ 3 :> "A") [] OTHER -> (1 :> "B" @@ 2 :> "A" @@ 3 :> "A" @@ 4 :> "B")
 Labels == {1, 2}
-Derived == IF Shape \in {"cross", "cross2"} THEN ("A" :> 1 @@ "B" :> 1) ELSE ("A" :> 1 @@ "B" :> 2 @@ "C" :> 1)
+Derived == IF Base \in {"cross", "cross2"} THEN ("A" :> 1 @@ "B" :> 1) ELSE ("A" :> 1 @@ "B" :> 2 @@ "C" :> 1)
 VARIABLES phase, label, byPeer, byLabel, routes, act
 INSTANCE LinkRegistry
 =============================================================================
